@@ -75,6 +75,21 @@ class _BytesFile:
         return False
 
 
+def _model_open(files):
+    """open() of the model FS: binary mode returns the bytes; text mode decodes and applies universal newlines, as Python does"""
+
+    def _open(p, mode="r", *a, **k):
+        data = files[p]
+        if "b" in mode:
+            return _BytesFile(data)
+        text = data.decode(k.get("encoding") or "utf-8")
+        if k.get("newline", None) is None:
+            text = text.replace("\r\n", "\n").replace("\r", "\n")
+        return _BytesFile(text)
+
+    return _open
+
+
 def write_and_read(pages, expanded, redirects=None):
     """pages: [(title, ns, revid|None, text)] written in this order by the real writer, read back by the real reader"""
     fetch, nuwiki, unorganized, nshandling, siteinfo = _mods()
@@ -99,7 +114,7 @@ def write_and_read(pages, expanded, redirects=None):
     nw.nshandler = nshandling.NsHandler(siteinfo.get_siteinfo("en"))
     saved_os, had_open, saved_open = nuwiki.os, "open" in nuwiki.__dict__, nuwiki.__dict__.get("open")
     nuwiki.os = _OsShim(files)
-    nuwiki.open = lambda p, mode="r", *a, **k: _BytesFile(files[p])
+    nuwiki.open = _model_open(files)
     try:
         nw._read_revisions()
     finally:
@@ -111,7 +126,7 @@ def write_and_read(pages, expanded, redirects=None):
     return nw, content
 
 
-FILL = ["", "x", "\n", "{\"a\": 1}"]
+FILL = ["", "x", "\n", "{\"a\": 1}", "l1\r\nl2", "t\r"]
 
 
 def h_framing(a_i: int, a_j: int, fa: int, b_l: int, c_i: int, c_j: int, fc: int, exp: bool, swap: bool, family: str):
@@ -122,13 +137,13 @@ def h_framing(a_i: int, a_j: int, fa: int, b_l: int, c_i: int, c_j: int, fc: int
     if family == "A":
         a_j = choose(a_j, n + 1)
         assume(a_i <= a_j)
-        t1 = SEP[a_i:a_j] + FILL[choose(fa, 4)]
+        t1 = SEP[a_i:a_j] + FILL[choose(fa, len(FILL))]
         t2 = "y"
     else:
         c_i, c_j = choose(c_i, n + 1), choose(c_j, n + 1)
         assume(c_i <= c_j)
-        t1 = FILL[choose(fa, 4)] + SEP[0:b_l]
-        t2 = SEP[c_i:c_j] + FILL[choose(fc, 4)]
+        t1 = FILL[choose(fa, len(FILL))] + SEP[0:b_l]
+        t2 = SEP[c_i:c_j] + FILL[choose(fc, len(FILL))]
     assume(SEP not in t1 and SEP not in t2)  # texts containing the separator are outside the format
     r1, r2 = (2, 1) if swap else (1, 2)  # revision ids go through simplejson's C encoder: concrete, both orders
     pages = [("Alpha", 0, r1, t1), ("Beta gamma", 0, r2, t2)]
@@ -154,7 +169,7 @@ def h_lookup(ta: int, tb: int, ra: int, rb: int, rc: int, order: int, text_a: st
     tb = (ta + 1) % len(TITLES)
     ra, rb, rc = 1 + choose(ra, 3), 1 + choose(rb, 3), 1 + choose(rc, 3)  # concrete ids (simplejson is C), every order type of three ids
     assume(ra != rb and ra != rc and rb != rc)
-    assume(len(text_a) <= 2 and in_alphabet(text_a, "x\n "))
+    assume(len(text_a) <= 1 and in_alphabet(text_a, "x\n\r "))
     text_a, text_b, text_c = pinned(text_a), "", "\n"
     A, B = TITLES[ta], TITLES[tb]
     pages = [(A, 0, ra, "A1" + text_a), (A, 0, rb, "A2" + text_b), (B, 0, rc, "B" + text_c)]
@@ -287,7 +302,7 @@ def build(tier: str) -> CheckSpec:
         cubes=cubes,
         functions=[fetch.FsOutput.write_pages, fetch.FsOutput.write_expanded_page, nuwiki.NuWiki._read_revisions, nuwiki.NuWiki._get_page,
                    nuwiki.NuWiki.normalize_and_get_page, unorganized.fs_escape, unorganized.python2sort, nshandling.NsHandler.get_fqname],
-        bounds={"framing texts": "family A: first text = separator[i:j] + filler for all 0<=i<=j<=12; family B: first text = filler + separator[0:l], second text = separator[i:j] + filler; filler in {'', 'x', newline, JSON-looking}; both writers, both id orders; texts containing the whole separator excluded",
+        bounds={"framing texts": "family A: first text = separator[i:j] + filler for all 0<=i<=j<=12; family B: first text = filler + separator[0:l], second text = separator[i:j] + filler; filler in {'', 'x', newline, JSON-looking, 'l1 CR LF l2', 't CR'}; both writers, both id orders; texts containing the whole separator excluded",
                 "lookup": "3 pages: two revisions of one title and another title out of %r, revision ids: every order type of three distinct ids, all 6 write orders, texts <= 2 chars, optional redirect" % TITLES,
                 "fs_escape": "titles <= %d chars over %r" % (3 if q else 5, ESC_ALPHABET), "image spellings": "6 namespace spellings x first-letter case x 3 separators x names <= 3 chars"},
         stubs=["FsOutput / NuWiki instances built with __new__; revisions file = in-memory buffer served through nuwiki.open / nuwiki.os.path.exists stubs (zip, sqlite and the directory tree are not executed)"],
